@@ -31,7 +31,9 @@ var c20Bodies = []string{"", "{}", "{", "null", `{"name":"x"}`, `{"name":5}`, `{
 	`{"sourceObjects":[],"destination":{}}`, `{"sourceObjects":null}`, `{"metadata":{"a":null}}`, `[1,2]`, "--zz\r\nContent-Type: application/json\r\n\r\n{\"name\":\"x\"}\r\n--zz\r\n\r\ndata\r\n--zz--\r\n",
 	"--zz\r\nContent-Type: application/json\r\n\r\n{\"name\":\"x\"}\r\n--zz\r\n\r\ntrunc", "--zz\r\n\r\nnot json\r\n--zz\r\n\r\nd\r\n--zz--\r\n", "--zz--\r\n",
 	"--bb\r\nContent-Type: application/http\r\n\r\nGET /storage/v1/b/scr/o/x HTTP/1.1\r\n\r\n\r\n--bb--\r\n", "--bb\r\nContent-Type: application/http\r\n\r\nGARBAGE\r\n--bb--\r\n",
-	"--bb\r\nContent-Type: text/plain\r\n\r\nGET / HTTP/1.1\r\n\r\n--bb--\r\n", "--bb\r\nContent-Type: application/http\r\n\r\nGET /storage/v1/b/scr/o/x HTTP/1.1\r\n", "\x1f\x8b\x08\x00garbage", "abcde"}
+	"--bb\r\nContent-Type: text/plain\r\n\r\nGET / HTTP/1.1\r\n\r\n--bb--\r\n", "--bb\r\nContent-Type: application/http\r\n\r\nGET /storage/v1/b/scr/o/x HTTP/1.1\r\n", "\x1f\x8b\x08\x00garbage", "abcde",
+	// JSON null where an object, array or string is expected (a decoder leaves nil pointers behind)
+	`{"sourceObjects":[null]}`, `{"sourceObjects":[{"name":"x"},null],"destination":{}}`, `{"sourceObjects":[{"name":null}]}`, `{"acl":[null],"metadata":null}`, `{"name":null,"bucket":null}`, `[null]`}
 
 func c20GCSRequest(d *draws, uploadID string) HReq {
 	q := url.Values{}
@@ -293,9 +295,9 @@ func c20GCSMix(r *Run, cfg *Stream) {
 	_, id := w.ResumableStart(upSpec{Bucket: "scr", Name: "res.bin", ContentType: "text/plain"})
 	s := r.NewSched()
 	s.Budget = 100000
-	roles := []int{cfg.Intn(6), cfg.Intn(6), cfg.Intn(6)}
+	roles := []int{cfg.Intn(8), cfg.Intn(8), cfg.Intn(8)}
 	if r.Index < 10 {
-		roles = [][]int{{0, 1, 2}, {3, 3, 0}, {4, 1, 0}, {5, 5, 2}}[r.Index%4]
+		roles = [][]int{{0, 1, 2}, {3, 3, 0}, {4, 1, 0}, {5, 5, 2}, {6, 7, 7}}[r.Index%5]
 	}
 	chk := func(q HReq, resp *HResp) {
 		if msg := wellFormed(resp, q.Method); msg != "" {
@@ -345,6 +347,19 @@ func c20GCSMix(r *Run, cfg *Stream) {
 					}
 					q = HReq{Method: "POST", Path: objPath("scr", a) + "/rewriteTo/b/scr/o/" + escName(b)}
 					r.Probe("c20.opposing_copies")
+				case 6: // a second bucket is deleted and re-created while others upload into it
+					if i%2 == 0 {
+						q = HReq{Method: "DELETE", Path: "/storage/v1/b/tmp"}
+					} else {
+						q = HReq{Method: "POST", Path: "/storage/v1/b", Headers: map[string]string{"Content-Type": "application/json"}, Body: []byte(`{"name":"tmp"}`)}
+					}
+					r.Probe("c20.bucket_deleted_during_uploads")
+				case 7: // uploads into, and patches of objects of, the bucket that comes and goes
+					if (i+ti)%3 != 2 {
+						q = HReq{Method: "POST", Path: upPath("tmp"), Query: url.Values{"uploadType": {"media"}, "name": {"t.txt"}}, Body: []byte("tmp")}
+					} else {
+						q = HReq{Method: "PATCH", Path: objPath("tmp", "t.txt"), Headers: map[string]string{"Content-Type": "application/json"}, Body: []byte(`{"metadata":{"k":"v"}}`)}
+					}
 				default: // bucket metadata / creation while listing
 					if i%2 == 0 {
 						q = HReq{Method: "POST", Path: "/storage/v1/b", Headers: map[string]string{"Content-Type": "application/json"}, Body: []byte(`{"name":"scr"}`)}
